@@ -38,18 +38,37 @@ PANIC_TABLE = {
         "unreachable!() arm of the promotion counter; C17 proves the counter stays in 0..=3",
     ("<PieceMovesIter as core::iter::traits::exact_size::ExactSizeIterator>::len", "assert", "Overflow:Sub(usize)"):
         "C17: the promotion counter is non-zero only while a promotion destination (worth 4) remains",
+    ("<PieceMovesIter as core::iter::traits::iterator::Iterator>::size_hint", "assert", "Overflow:Sub(usize)"):
+        "C17: the promotion counter is non-zero only while a promotion destination (worth 4) remains",
     ("rank::Rank::index_const", "panic", "panic_fmt"): "documented panicking constructor; every caller's argument range is proved at its call site",
     ("square::Square::index_const", "panic", "panic_fmt"): "documented panicking constructor; every caller's argument range is proved at its call site",
     ("file::File::index_const", "panic", "panic_fmt"): "documented panicking constructor; every caller's argument range is proved at its call site",
 }
 
 
-def roots():
+def roots(f=None):
     it = "<" + PM + "PieceMovesIter as core::iter::traits::"
-    return [B + "::generate_moves_for", B + "::generate_moves", PM + "PieceMoves::len", PM + "PieceMoves::has",
-            PM + "PieceMoves::is_empty", it + "iterator::Iterator>::next", it + "iterator::Iterator>::size_hint",
-            it + "exact_size::ExactSizeIterator>::len",
-            "<" + PM + "PieceMoves as core::iter::traits::collect::IntoIterator>::into_iter"]
+    r = [B + "::generate_moves_for", B + "::generate_moves", PM + "PieceMoves::len", PM + "PieceMoves::has",
+         PM + "PieceMoves::is_empty", it + "iterator::Iterator>::next", it + "iterator::Iterator>::size_hint",
+         it + "exact_size::ExactSizeIterator>::len",
+         "<" + PM + "PieceMoves as core::iter::traits::collect::IntoIterator>::into_iter"]
+    if f is not None:
+        # ExactSizeIterator::len may be left to its provided default (no body in this crate then)
+        r = [k for k in r if k in f.bodies or "ExactSizeIterator" not in k]
+    return r
+
+
+def iter_invariants(f):
+    """inside the methods of the move iterator its promotion counter lies in 0..=3 (C17 establishes this: into_iter
+    starts it at 0, next keeps it there, nothing else writes the private field)"""
+    adt = f.adts.get(PM + "PieceMovesIter")
+    cnt = [fl["name"] for fl in adt["variants"][0]["fields"] if fl["ty"] in ("u8", "u16", "u32", "usize", "u64")] if adt else []
+
+    def inv(body):
+        if len(cnt) == 1 and body.key.startswith("<" + PM + "PieceMovesIter as "):
+            return {("field", ("obj", "self"), cnt[0]): (0, 3)}
+        return None
+    return inv
 
 
 def role_table(f):
@@ -80,7 +99,7 @@ def run(ctx):
         ctx.rule("king-generator" + sfx)
         movegen.check_king_generator(ctx, f, L)
         ctx.rule("panic-audit" + sfx)
-        a = panics.Audit(f, tgens={movegen.tparam(f): list(movegen.slider_types(f).values())}).run(roots())
+        a = panics.Audit(f, tgens={movegen.tparam(f): list(movegen.slider_types(f).values())}, invariants_for=iter_invariants(f)).run(roots(f))
         ctx.analysed += a.analysed[:60]
         n = panics.report(ctx, a, role_table(f), "panic")
         ctx.floor("panic sites audited", n, 30)
